@@ -90,13 +90,14 @@ PROPERTIES["C05"] = {
 PROPERTIES["C14"] = {
     "level": "other",
     "level_text": "bounded symbolic verification: for every value of the symbolic float64 cells (fixed small sample counts, concrete missing patterns and schemas) the statistics, scaling, up-scaling and affine model conversion of the real code satisfy the advertised identities; solver verdict per obligation",
-    "level_note": SRE_NOTE,
-    "technique": SRE_TECH,
-    "explanation": "C14: scalar_stats_t (through the real datasource -> dataset -> flatten/targets stack), scale/upscale in the 4 modes, nano::upscale(weights,bias) on symbolic data.",
+    "level_note": SRE_NOTE + "; " + SBV_NOTE,
+    "technique": SRE_TECH + "; constant columns in IEEE arithmetic by " + SBV_TECH,
+    "explanation": "C14: scalar_stats_t (through the real datasource -> dataset -> flatten/targets stack), scale/upscale in the 4 modes, nano::upscale(weights,bias) on symbolic data. Unit C14_const: the same stack in IEEE double arithmetic (z3 floating-point theory) for a constant column with a symbolic value.",
     "assumptions": SRE_ASSUME + ["cells are boxed to [-8,8]; W, b, raw x unbounded reals; epsilon thresholds (epsilon2) are the library's own"],
     "bounds": {"samples": "2..4", "columns": "2..5", "scaling modes": "all 4 for inputs and targets (pairs enumerated per configuration)",
                "missing patterns": "5 concrete patterns incl. all-missing and single-sample columns"},
-    "outside": ["matrices larger than 4 x 5", "floating-point rounding relative to the magnitude of the summed terms (identities are proved over the reals)"],
+    "outside": ["matrices larger than 4 x 5", "floating-point rounding relative to the magnitude of the summed terms (identities are proved over the reals), except for constant columns (unit C14_const)",
+                "C14_const: with a fully symbolic double the solver FINDS violations (satisfiable queries: 30 s) but does not finish the unsatisfiable ones within the budget (bit-blasting of the division / square-root chain) - those configurations come back inconclusive on a correct tree; the decimal-grid configurations (value = k/10, k <= 1000, concrete per path) are exhaustive by enumeration"],
     "units": [
         {"engine": "sre", "harness": "C14_scaling", "sources": ["C14_scaling.cpp"],
          "quick": ["f=rrr;n=3;fs=2;ts=0", "f=rrr;n=3;fs=3;ts=3", "f=rrr;n=3;fs=1;ts=1;miss=1", "f=rsr;n=3;miss=1;fs=1;ts=2",
@@ -108,6 +109,14 @@ PROPERTIES["C14"] = {
                      "(anonymous)::done(scalar_stats_t&)", "nano::scalar_stats_t::scale", "nano::scalar_stats_t::upscale",
                      "nano::upscale(stats, scaling, stats, scaling, weights, bias)", "(anonymous)::make_scaling", "nano::dataset_t::flatten",
                      "nano::dataset_t::targets"]},
+        # constant columns in IEEE arithmetic (the identities above are over the reals): a column holding n times the same SYMBOLIC
+        # double must have finite statistics and round-trip in every scaling mode
+        {"engine": "sbv", "harness": "C14_const", "sources": ["C14_const.cpp"],
+         "quick": ["n=3;mode=3", "n=3;mode=3;grid=300", "n=5;mode=3;grid=100", "n=3;mode=1;grid=100", "n=3;mode=2;grid=100"],
+         "thorough": ["n=%d;mode=3" % n for n in (3, 5, 7)] + ["n=%d;mode=%d;grid=%d" % (n, m, g) for (n, g) in ((3, 1000), (5, 500), (7, 300), (10, 300)) for m in (1, 2, 3)],
+         "budget": {"quick": {"deadline_s": 100, "max_paths": 20000, "query_s": 40}, "thorough": {"deadline_s": 900, "max_paths": 400000, "query_s": 300}},
+         "encoded": ["nano::scalar_stats_t::make_flatten_stats", "(anonymous)::update(scalar_stats_t&)", "(anonymous)::done(scalar_stats_t&) [one-pass variance, square root, epsilon floors]", "nano::scalar_stats_t::scale", "nano::scalar_stats_t::upscale",
+                     "nano::datasource_t::set / nano::dataset_t::flatten (float64 scalar feature)"]},
     ],
 }
 
@@ -441,7 +450,7 @@ PROPERTIES["C17"] = {
          "quick": ["mode=each;K=2;n=2;symn=1", "mode=chunks;K=2;n=3;chunk=2;symn=1", "mode=throw;K=2;n=2;symn=1", "mode=queued;K=2;n=2", "mode=two;K=2;n=2", "mode=each;K=3;n=3"],
          "thorough": ["mode=each;K=2;n=2;symn=1", "mode=each;K=2;n=3;symn=1", "mode=chunks;K=2;n=3;chunk=2;symn=1", "mode=chunks;K=2;n=4;chunk=2;symn=1", "mode=chunks;K=3;n=5;chunk=2", "mode=throw;K=2;n=2;symn=1", "mode=throw;K=3;n=3",
                       "mode=queued;K=2;n=2", "mode=queued;K=2;n=3", "mode=queued;K=3;n=2", "mode=two;K=2;n=2", "mode=each;K=3;n=3", "mode=each;K=3;n=2"],
-         "env_tier": {"thorough": {"SBV_PREEMPT": "3"}},
+         "env": {"SBV_PREEMPT": "2"}, "env_tier": {"thorough": {"SBV_PREEMPT": "3"}},
          "budget": {"quick": {"deadline_s": 45, "max_paths": 400000, "query_s": 10}, "thorough": {"deadline_s": 900, "max_paths": 5000000, "query_s": 30}},
          "encoded": ["nano::parallel::pool_t::{pool_t(size_t), ~pool_t, map(elements, op, raise), map(elements, chunksize, op, raise), enqueue, size}", "nano::parallel::worker_t::operator()", "nano::parallel::queue_t::{enqueue, enqueue_no_lock}",
                      "nano::parallel::section_t::{block, ~section_t}", "std::packaged_task / std::shared_future / std::__future_base (interpreted from the harness' and the library's bitcode)",
@@ -512,9 +521,9 @@ PROPERTIES["C13"] = {
     "units": [
         {"engine": "sre", "harness": "C13_tuner", "sources": ["C13_tuner.cpp"],
          "quick": ["tuner=local-search;g=2;land=free", "tuner=local-search;g=3;land=free", "tuner=local-search;g=5;land=free", "tuner=local-search;g=2,2;land=free", "tuner=local-search;g=5,5,5;land=corner;evals=10",
-                   "tuner=local-search;g=5,5,5;land=center;evals=20", "tuner=local-search;g=7,3;land=plateau", "tuner=local-search;g=31;land=edge;evals=10;log=1", "tuner=local-search;g=31,5;land=corner;evals=10",
+                   "tuner=local-search;g=5,5,5;land=center;evals=20", "tuner=local-search;g=7,3;land=plateau", "tuner=local-search;g=31;land=edge;evals=10;log=1", "tuner=local-search;g=31,5;land=corner;evals=10", "tuner=local-search;g=31,31;land=corner;evals=20", "tuner=local-search;g=31,31;land=edge;evals=14",
                    "tuner=local-search;g=5;land=free;nan=2", "tuner=local-search;g=5,5;land=corner;nan=7"],
-         "thorough": ["tuner=local-search;g=%s;land=%s;evals=%d;log=%d" % (g, l, e, lg) for g in ("5,5,5", "7,3", "31", "31,5", "9,9", "6,5,5") for l in ("corner", "center", "edge", "plateau") for (e, lg) in ((10, 0), (20, 1))] +
+         "thorough": ["tuner=local-search;g=%s;land=%s;evals=%d;log=%d" % (g, l, e, lg) for g in ("5,5,5", "7,3", "31", "31,5", "9,9", "6,5,5", "31,31", "17,17,5") for l in ("corner", "center", "edge", "plateau") for (e, lg) in ((10, 0), (20, 1))] +
                      ["tuner=local-search;g=%s;land=free" % g for g in ("2", "3", "4", "5", "2,2", "3,2")] + ["tuner=local-search;g=5;land=free;nan=%d" % k for k in (0, 1, 2, 3)],
          "budget": {"quick": {"deadline_s": 60, "max_paths": 20000}, "thorough": {"deadline_s": 600, "max_paths": 400000}},
          "encoded": _C13_ENC},
